@@ -8,7 +8,7 @@ type item struct {
 	qers []int
 }
 
-func use(int, *int) {}
+func use(int, *int)        {}
 func get(int) (*int, bool) { return nil, false }
 func pop() (int, bool)     { return 0, false }
 
@@ -135,5 +135,44 @@ func BadArmReadsOtherArm(items []item) {
 				use(it.id, it.addr)
 			}
 		}
+	}
+}
+
+func later(func()) {}
+
+// deferred closure inside a range loop capturing the range variable (module go version < 1.22)
+func BadDeferCapturesRangeVar(items []item, m map[int]bool) {
+	for _, it := range items {
+		if it.addr != nil {
+			defer func() {
+				delete(m, it.id)
+			}()
+		}
+	}
+}
+
+func BadGoCapturesRangeVar(items []item) {
+	for k, it := range items {
+		go func() {
+			use(k, it.addr)
+		}()
+	}
+}
+
+// value passed as an argument: evaluated at the defer statement
+func OkDeferWithArgument(items []item, m map[int]bool) {
+	for _, it := range items {
+		defer func(id int) {
+			delete(m, id)
+		}(it.id)
+	}
+}
+
+// closure called immediately
+func OkImmediateClosure(items []item) {
+	for _, it := range items {
+		func() {
+			use(it.id, it.addr)
+		}()
 	}
 }
